@@ -43,7 +43,7 @@ def store_fn(m):
 
 def increment_fn(m):
     r = [b for b in m.prog.user_bodies() if b.kind == 'method' and b.argc == 3 and b.locals[0] == 'nundb::bo::Response'
-         and b.locals[1] == '&nundb::bo::Database' and b.locals[2] == 'std::string::String' and b.locals[3] == 'i32']
+         and b.locals[1] == '&nundb::bo::Database' and core.is_str_ty(b.locals[2]) and b.locals[3] == 'i32']
     if len(r) != 1:
         raise core.AnchorError('increment function (&Database, String, i32) -> Response: found %d' % len(r))
     return r[0]
@@ -52,7 +52,7 @@ def increment_fn(m):
 def remover_fn(m):
     r = []
     for b in m.prog.user_bodies():
-        if b.kind == 'method' and b.locals[0] == 'nundb::bo::Response' and b.argc == 2 and b.locals[2] == 'std::string::String':
+        if b.kind == 'method' and b.locals[0] == 'nundb::bo::Response' and b.argc == 2 and core.is_str_ty(b.locals[2]):
             if any(t['f'].get('dargs', '').startswith('std::collections::HashMap::<std::string::String, nundb::bo::Value>::remove')
                    for _, t in b.calls()):
                 r.append(b)
@@ -107,7 +107,10 @@ def run(ck, m):
                       'read and write of the entry are in one critical section of Database.map', '%s:%s' % (b.file, b.line))
             continue
         for r in res:
-            ck.ob('C02.a', short(b.id), '%s->%s' % (r['first_fn'], r['second_fn']), False,
+            # a write-back of entries taken from an earlier bulk copy is one finding per (function, copy): the helper through
+            # which the write happens is an implementation detail that an "extract function" refactoring changes
+            second = 'write-back' if 'bulk copy' in (r.get('same') or '') else r['second_fn']
+            ck.ob('C02.a', short(b.id), '%s->%s' % (r['first_fn'], second), False,
                   '%s reads the entry in %s (%s) and, after releasing Database.map, writes it through %s (%s) with data '
                   'derived from that read (%s): two writers presenting the same base version can both pass the comparison'
                   % (short(b.id), r['first_fn'], r['first'], r['second_fn'], r['second'], r['same']), r['second'])
